@@ -246,3 +246,113 @@ func runQuiescent(c *Ctx, prop string) {
 		accountStress(c, prop, o, res, ch)
 	}
 }
+
+// ---------------------------------------------------------------- C05 (free-running part)
+
+func init() { registry["C05S"] = runC05Stress }
+
+// runC05Stress: every key has one owner goroutine (so "earlier/later" writes are program order); background
+// readers and other owners hammer the cache; small write buffers and delays make buffered inserts routinely
+// be applied after Del's immediate removal. Offline rule: after Del(k) returned and a later Wait() of the
+// owner returned, every Get(k) by anyone misses until the owner calls Set(k) again.
+func runC05Stress(c *Ctx) {
+	c.R.Rule = "free-running owners: each key is written by one goroutine only; per-key rule over the merged log: Del(k) returned, a later Wait() by the owner returned => every Get(k) that starts afterwards and returns before the owner's next Set(k) is called misses; distinct = per-key 4-grams of event kinds per configuration; non-trivial windows are counted"
+	n := c.N(24, 300)
+	for i := 0; i < n; i++ {
+		if i%c.NParts != c.Part {
+			continue
+		}
+		rng := lab.NewRNG(c.Seed, 500000+uint64(i))
+		workers := lab.Pick(rng, []int{2, 4, 8, 16})
+		nk := workers * lab.Pick(rng, []int{1, 2, 4})
+		o := stressOpts{
+			Cfg: lab.CacheCfg{NumCounters: 1000, MaxCost: lab.Pick(rng, []int64{int64(nk * 4), int64(nk), int64(max(1, nk/2))}), BufferItems: 64,
+				IgnoreInternalCost: true, KeyKind: lab.Pick(rng, []string{"uint64", "string"}), NKeys: nk, TTLTick: 1, SetBuf: lab.Pick(rng, []int{0, 1, 2, 8, 64})},
+			Workers: workers, Probers: 2, Phases: 2, OwnKeys: true,
+			Mix:    map[string]int{"get": 25, "set": 30, "setttl": 8, "del": 20, "wait": 15, "iter": 1},
+			TTLsMs: []int{50, 2000}, CostMode: "one", DelayLevel: lab.Pick(rng, []float64{0, 1, 2}),
+			EndWith: "close", Stream: uint64(i),
+		}
+		o.Name = fmt.Sprintf("c05s-w%d-nk%d-cap%d-buf%d-d%.0f", workers, nk, o.Cfg.MaxCost, o.Cfg.SetBuf, o.DelayLevel)
+		o.OpsPerPhase = c.N(6000, 12000) / workers
+		c.J.Case(o)
+		res := runStress(c, o)
+		accountStress(c, "C05", o, res, stressChecks{})
+		if res.Err != nil {
+			continue
+		}
+		windows, checked := checkDelWins(res.A, func(sig, detail string, w any) {
+			c.R.Violate("C05/"+sig, fmt.Sprintf("[%s] %s", o.Name, detail), map[string]any{"episode": o, "witness": w})
+		})
+		c.R.Obs("del_wait_windows", windows)
+		c.R.Obs("gets_checked_in_windows", checked)
+	}
+}
+
+// checkDelWins implements the per-key rule. Keys are single-writer, so the owner's log order is program order.
+func checkDelWins(a *lab.Analysis, rep lab.Reporter) (windows, checked int64) {
+	type win struct{ from, to int64 }
+	wins := map[int32][]win{}
+	// per owner: walk its own events in order
+	type st struct {
+		delRet int64 // return clock of the last Del not yet followed by a Set
+		armed  int64 // return clock of the first Wait after that Del
+	}
+	perOwner := map[int16]map[int32]*st{}
+	const inf = int64(1 << 62)
+	open := map[int16]map[int32]int{} // index of the open window in wins[key]
+	for _, e := range a.Evs {
+		if e.G < 0 {
+			continue
+		}
+		m := perOwner[e.G]
+		if m == nil {
+			m = map[int32]*st{}
+			perOwner[e.G] = m
+			open[e.G] = map[int32]int{}
+		}
+		switch e.Kind {
+		case lab.EvDel:
+			// events are ordered by call clock; Del's return clock matters
+			if m[e.Key] == nil { // a repeated Del without a Set in between keeps the earlier window
+				m[e.Key] = &st{delRet: e.T2}
+			}
+		case lab.EvSet:
+			if s := m[e.Key]; s != nil {
+				if idx, ok := open[e.G][e.Key]; ok {
+					wins[e.Key][idx].to = e.T1
+					delete(open[e.G], e.Key)
+				}
+				delete(m, e.Key)
+			}
+		case lab.EvWait:
+			for k, s := range m {
+				if s.armed == 0 && e.T1 > s.delRet {
+					s.armed = e.T2
+					wins[k] = append(wins[k], win{e.T2, inf})
+					open[e.G][k] = len(wins[k]) - 1
+				}
+			}
+		case lab.EvClear:
+			// a Clear by anyone also empties the cache; windows stay valid (misses only)
+		}
+	}
+	for _, ws := range wins {
+		windows += int64(len(ws))
+	}
+	for _, e := range a.Evs {
+		if e.Kind != lab.EvGet {
+			continue
+		}
+		for _, w := range wins[e.Key] {
+			if e.T1 > w.from && e.T2 < w.to {
+				checked++
+				if e.Ok {
+					rep("hit-after-del-and-wait", fmt.Sprintf("Get(key %d) at [%d,%d] returned %#x although the owner's Del returned and its later Wait() returned at %d, and no Set of the key was called before %d", e.Key, e.T1, e.T2, e.Val, w.from, w.to), a.Witness(e.Val, e))
+					return
+				}
+			}
+		}
+	}
+	return
+}
